@@ -19,6 +19,9 @@ from .c13 import Ctx, name_is, FIELDS, AXIS, t_inplace_op
 TRIPLE = 'definitions.Triple'
 
 
+from .common import fromargs_args
+
+
 def _fromargs_calls(func):
     return sorted((n for n in walk(func.body) if isinstance(n, ast.Call) and isinstance(n.func, ast.Attribute)
                    and n.func.attr == '_fromargs'), key=lambda n: n.lineno)
@@ -42,10 +45,11 @@ def freshness(model, R):
         env = fresh.local_bindings(func)
         params = set(func.params)
         for call in calls:
-            if len(call.args) != nargs or call.keywords:
+            fargs = fromargs_args(model, func, call)
+            if fargs is None or len(fargs) != nargs:
                 R.unknown('FRESH', func, call, '_fromargs arity', src(call))
                 continue
-            for i, a in enumerate(call.args):
+            for i, a in enumerate(fargs):
                 kind, why = fresh.classify(a, env, params, func=func)
                 slot = f'_fromargs argument {i}'
                 if kind == fresh.FRESH:
@@ -66,11 +70,12 @@ def freshness(model, R):
                 if c and len(c) == 2 and c[1] in fields:
                     stores[c[1]] = s.value
         params = func.params[1:]
-        ok = (list(stores) == fields or set(stores) == set(fields)) and all(
-            isinstance(stores[f], ast.Name) and stores[f].id == params[i] for i, f in enumerate(fields) if f in stores)
-        R.check(ok and len(stores) == len(fields), 'FRESH', func, func.node, '_fromargs stores argument i in field i',
-                ', '.join(f'inst.{f} = <arg {i}>' for i, f in enumerate(fields)),
-                ', '.join(f'{f} = {src(v)}' for f, v in stores.items()))
+        # each field is stored from its own parameter (the call sites are judged field by field through fromargs_args)
+        ok = set(stores) == set(fields) and all(isinstance(v, ast.Name) and v.id in params for v in stores.values()) \
+            and len({v.id for v in stores.values() if isinstance(v, ast.Name)}) == len(fields)
+        R.check(ok and len(stores) == len(fields), 'FRESH', func, func.node, '_fromargs stores each field from its own parameter',
+                ', '.join(f'inst.{f} = <parameter>' for f in fields),
+                ', '.join(f'{f} = {src(v)}' for f, v in stores.items()), strict=True)
 
 
 def union_intersection(model, R):
@@ -154,8 +159,9 @@ def derived_tables(model, R):
     func = model.func('definitions.Triple.copy')
     call = _fromargs_calls(func)
     env = Env(func)
-    if len(call) == 1 and len(call[0].args) == 3:
-        got = [_copy_of(a, env.expand) for a in call[0].args]
+    fargs = fromargs_args(model, func, call[0]) if len(call) == 1 else None
+    if fargs is not None and len(fargs) == 3:
+        got = [_copy_of(a, env.expand) for a in fargs]
         R.check(got == ['_objects', '_properties', '_pairs'], 'DERIVED', func, call[0], 'copy: same three fields in order',
                 '_fromargs(copy of _objects, copy of _properties, copy of _pairs)', str(got))
     else:
@@ -164,8 +170,9 @@ def derived_tables(model, R):
     func = model.func('definitions.TransformableMixin.transposed')
     C = Ctx(R, func)
     call = _fromargs_calls(func)
-    if len(call) == 1 and len(call[0].args) == 3:
-        a0, a1, cells = call[0].args
+    fargs = fromargs_args(model, func, call[0]) if len(call) == 1 else None
+    if fargs is not None and len(fargs) == 3:
+        a0, a1, cells = fargs
         got = [_copy_of(a0, C.X), _copy_of(a1, C.X)]
         R.check(got == ['_properties', '_objects'], 'DERIVED', func, call[0], 'transposed: axes swapped',
                 '_fromargs(copy of _properties, copy of _objects, ...)', str(got))
@@ -186,8 +193,9 @@ def derived_tables(model, R):
     func = model.func('definitions.TransformableMixin.inverted')
     C = Ctx(R, func)
     call = _fromargs_calls(func)
-    if len(call) == 1 and len(call[0].args) == 3:
-        a0, a1, cells = call[0].args
+    fargs = fromargs_args(model, func, call[0]) if len(call) == 1 else None
+    if fargs is not None and len(fargs) == 3:
+        a0, a1, cells = fargs
         got = [_copy_of(a0, C.X), _copy_of(a1, C.X)]
         R.check(got == ['_objects', '_properties'], 'DERIVED', func, call[0], 'inverted: axes kept',
                 '_fromargs(copy of _objects, copy of _properties, ...)', str(got))
@@ -305,10 +313,11 @@ def take_rules(model, R):
             R.unknown('GUARD', func, test, 'take: KeyError guard', e.what)
     # the result
     calls = _fromargs_calls(func)
-    if len(calls) != 1 or len(calls[0].args) != 3:
+    fargs = fromargs_args(model, func, calls[0]) if len(calls) == 1 else None
+    if fargs is None or len(fargs) != 3:
         R.unknown('DERIVED', func, func.node, 'take', 'not a single _fromargs call')
         return
-    a0, a1, cells = calls[0].args
+    a0, a1, cells = fargs
     bind = fresh.local_bindings(func)
 
     def axis_source(node, field, param):
@@ -561,6 +570,12 @@ def eq_complete(R, func, fields, roots, slot, allow_fallback=False):
             R.bad('EQ-COMPLETE', func, part, slot, f'{self_}.{l[1]} == {other}.{l[1]}', src(part) + ' compares an operand with itself')
             return
         seen[l[1]] = part
+    # the rows as bit vectors determine the Boolean table once the axis they are numbered by has been compared equal
+    if 'bools' in fields and 'bools' not in seen:
+        if '_intents' in seen and 'properties' in seen and 'objects' in seen:
+            seen['bools'] = seen['_intents']
+        elif '_extents' in seen and 'objects' in seen and 'properties' in seen:
+            seen['bools'] = seen['_extents']
     missing = [f for f in fields if f not in seen]
     R.decided(not missing, 'EQ-COMPLETE', func, v, slot, 'all of ' + ', '.join(fields) + ' compared', 'compares ' + ', '.join(seen) + (f'; missing {missing}' if missing else ''))
 
